@@ -5,7 +5,7 @@ import numpy as np
 import scipy.sparse
 
 import gen
-from common import Driver, RecordFSS, sparse_to_dict
+from common import Driver, RecordFSS, sparse_to_dict, f2b, b2f
 from props.C02 import graph_line, compare_graphs
 from common import parse_coo
 
@@ -27,13 +27,14 @@ def run(ctx):
     rng = ctx.rng
     ctx.rule = ("real fits with a disconnection threshold at chosen quantiles of the pairwise distances (isolating none / some / most "
                 "samples), integer-lattice data with distances exactly at the threshold, bounded metrics at their default threshold, "
-                "dense / CSR / precomputed inputs, exact and forced-approximate paths, set_op_mix_ratio in {0,.5,1}, plus a weak-edge family (a sample whose edges all lie below max/n_epochs) and a refit-history family (unique=True fit, then unique=False refit of the same estimator): (a) no edge at or "
+                "dense / CSR / precomputed inputs, exact and forced-approximate paths, set_op_mix_ratio in {0,.5,1}, plus a weak-edge family (a sample whose edges all lie below max/n_epochs) and a refit-history family (unique=True fit, then unique=False refit of the same estimator): the exact neighbour stage (threshold, argsort, first k, -1 marking) vs the Lean model KnnStage.exactStage on every exact-path fit; (a) no edge at or "
                 "beyond the threshold (float64 true distances), (b) NaN row <=> no edge <=> disconnected_vertices, other rows finite, "
                 "(c) transform of all-far / mixed / none-far / exactly-at-threshold batches; graph support vs the Lean model fed with the "
                 "recorded kNN table; non-trivial = at least one isolated and one non-isolated sample")
     ctx.assumptions += ["'every other row finite' relies on the float SGD staying finite (validated, not proved)"]
     drv = Driver()
     pend = []
+    pend_knn = []
     cfgs = []
     metrics = ["euclidean", "manhattan", "chebyshev", "cosine", "jaccard"]
     forms = ["dense", "csr", "precomputed"]
@@ -115,6 +116,15 @@ def run(ctx):
             idx = np.where(np.isinf(dist), -1, idx)
             h = graph_line(drv, r, c0["n_neighbors"], float(c0["local_connectivity"]), idx, dist)
             pend.append((h, g, {k_: v for k_, v in case.items() if k_ != "X"}))
+            # the exact neighbour stage (threshold -> argsort -> first k -> -1 marking) vs KnnStage.exactStage: fed with the distance
+            # matrix the caller passed (precomputed form) or the one recorded at fuzzy_simplicial_set (already thresholded)
+            if c0["X"] is not None and not approx and not hasattr(c0["X"], "tocsr") and c0["X"].shape[0] == c0["X"].shape[1]:
+                Din = D.astype(np.float32) if form == "precomputed" else np.asarray(c0["X"], dtype=np.float32)
+                kk = int(c0["n_neighbors"])
+                used = float(m._disconnection_distance)      # what this fit applied (inf for 'precomputed' without an explicit value)
+                toks = ["exactstage", int(np.isfinite(used)), f2b(used if np.isfinite(used) else 0.0), kk, n]
+                toks += [f2b(float(v)) for v in Din.astype(np.float64).ravel()]
+                pend_knn.append((drv.add(*toks), idx.copy(), dist.copy(), Din, kk, {k_: v for k_, v in case.items() if k_ != "X"}))
         # (c) transform
         if form != "precomputed" and not (metric == "jaccard" and form == "csr" and False):
             far = None
@@ -187,6 +197,25 @@ def run(ctx):
                  metric=metric, form=form, r=r, approx=approx, isolated=int(no_edge.sum() > 0), lattice=bool(lattice))
 
     outs = drv.run()
+    for h, idx_i, dist_i, Din, kk, case in pend_knn:
+        t_ = outs[h].split()
+        nn = Din.shape[0]
+        if len(t_) != 2 * nn * kk:
+            ctx.mismatch("exactstage", {"model": outs[h][:80]}, case)
+            continue
+        midx = np.array([int(x) for x in t_[: nn * kk]]).reshape(nn, kk)
+        mdist = np.array([np.inf if x == "inf" else b2f(x) for x in t_[nn * kk:]]).reshape(nn, kk)
+        if not np.array_equal(mdist.astype(np.float32), dist_i.astype(np.float32)):
+            rr = int(np.where((mdist.astype(np.float32) != dist_i.astype(np.float32)).any(axis=1))[0][0])
+            ctx.mismatch("exactstage.dists", {"row": rr, "impl": dist_i[rr].tolist(), "model": mdist[rr].tolist()}, case)
+            continue
+        # indices: rows whose k+1 smallest values are pairwise distinct (numpy's quicksort is not stable on ties)
+        srt = np.sort(np.where(np.isfinite(Din), Din, np.inf), axis=1)[:, : kk + 1]
+        free = np.array([len(set(rw[np.isfinite(rw)].tolist())) == int(np.isfinite(rw).sum()) for rw in srt])
+        bad = [int(i) for i in np.where(free)[0] if not np.array_equal(midx[i], idx_i[i])]
+        if bad:
+            ctx.mismatch("exactstage.indices", {"row": bad[0], "impl": idx_i[bad[0]].tolist(), "model": midx[bad[0]].tolist()}, case)
+        ctx.bin("exactstage_rows_tiefree", int(free.sum() * 10 // max(1, len(free))))
     for h, g, case in pend:
         model = parse_coo(outs[h])
         if model is None:
